@@ -18,9 +18,20 @@
   code; the result is the error CLASS (spec.MatrixError code / InternalServerError / other error) or
   the response.
 
-  The pseudo-ID room version (`org.matrix.msc4014`): HandleInviteV3 below; HandleSendJoin's pseudo-ID path and
-  PerformInvite (both version families) are in VModel.HandshakeInvite.  Not modelled (the driver answers `skip`):
-  PerformJoin and HandleInvite for that version.
+  Round 5 (the repairs 20b9d02..a344cd8 of /repo's handshake files):
+    * the answer of the user-ID querier is three-valued (`SenderAns`): an error, a user ID, or NEITHER — `(nil, nil)`, what
+      the repository's own test queriers answer for an unknown sender.  HandleSendJoin / HandleInvite treat the last like an
+      error (before the repair they dereferenced the nil user ID);
+    * the membership querier answers per sender ID (`membershipOf`); HandleInvite refuses an invite whose state key is
+      neither the sender ID nor the user ID of the invited user it is handed, and asks for the membership of the EVENT's
+      state key; HandleInviteV3 asks for the membership of the sender ID `GetOrCreateSenderID` returned (the state key of the
+      event it builds), not of the `InvitedSenderID` of its input;
+    * `isWellFormedJoinMemberEvent` requires the type `m.room.member` and the joiner as sender, and PerformJoin takes the
+      remote's copy of the join event only if `VerifyEventSignatures` accepts it (user-ID room versions).
+
+  The pseudo-ID room version (`org.matrix.msc4014`): HandleInviteV3 below; HandleSendJoin's pseudo-ID path, PerformInvite
+  (both version families) and PerformJoin's pseudo-ID path (sender-ID creation, the `storeMXIDMappings` loop, where it sits
+  relative to the checks) are in VModel.HandshakeInvite.  Not modelled (the driver answers `skip`): HandleInvite for that version.
   Caller contract assumed (the handlers panic otherwise, by explicit `panic("Missing …")`): queriers,
   verifier and context are non-nil; `HandleMakeJoinInput.RoomVersion` is a version this server knows
   (`MustGetRoomVersion`).
@@ -50,6 +61,13 @@ inductive QAns (α : Type) where
   | err
   | ans (a : α)
   deriving Inhabited
+
+/-- answer of the caller's `spec.UserIDForSender` for the event's sender, as far as the handlers look at it -/
+inductive SenderAns where
+  | err                  -- an error
+  | nil                  -- no error and no user ID: `(nil, nil)`
+  | dom (d : Bytes)      -- a user ID, of this domain
+  deriving DecidableEq, Repr, Inhabited
 
 /-- answer of `JSONVerifier.VerifyJSONs` for the single request the handlers make -/
 inductive VerifyAns where
@@ -281,8 +299,8 @@ structure SendJoinIn where
   localServer : Bytes
   keyID : Bytes
   -- oracles
-  /-- UserIDQuerier(roomID, sender): `none` = error, `some d` = the user's domain -/
-  senderDomain : Option Bytes
+  /-- UserIDQuerier(roomID, sender) -/
+  senderDomain : SenderAns
   /-- the verifier's answer for (sender's domain, redacted event) -/
   verify : VerifyAns
   /-- MembershipQuerier.CurrentMembership: `none` = error -/
@@ -337,8 +355,9 @@ def handleSendJoin (i : SendJoinIn) : R SendJoinOut :=
   else if i.stateKey.isNone || i.stateKey == some [] then .error eBadJSON
   else if i.stateKey != some i.sender then .error eBadJSON
   else match i.senderDomain with
-    | none => .error eForbidden
-    | some d =>
+    | .err => .error eForbidden
+    | .nil => .error eForbidden          -- `err != nil || sender == nil` (round-5 repair: a nil dereference before)
+    | .dom d =>
       if d != i.requestOrigin then .error eForbidden
       else if i.eventRoomID != i.roomID then .error eBadJSON
       else if i.eventID != i.reqEventID then .error eBadJSON
@@ -351,9 +370,12 @@ structure InviteIn where
   eventRoomID : Bytes
   roomID : Bytes
   /-- UserIDQuerier(roomID, sender) -/
-  senderDomain : Option Bytes
+  senderDomain : SenderAns
   verify : VerifyAns
   invitedUserDomain : Bytes        -- input.InvitedUser.Domain(): the name the event is signed with
+  /-- input.InvitedUser.String() and input.InvitedSenderID: the two names of the invited user the handler is handed -/
+  invitedUserID : Bytes
+  invitedSenderID : Bytes
   keyID : Bytes
   -- handleInviteCommonChecks
   /-- RoomQuerier.IsKnownRoom -/
@@ -362,8 +384,8 @@ structure InviteIn where
   strippedGiven : Nat
   /-- StateQuerier.GetState (asked when no stripped state was given): error | number of events (nil = 0) -/
   stateQuery : QAns Nat
-  /-- MembershipQuerier.CurrentMembership(invited sender ID) -/
-  curMembership : Option Bytes
+  /-- MembershipQuerier.CurrentMembership(room, sender ID), per sender ID: `none` = error -/
+  membershipOf : Bytes → Option Bytes
   -- "Check that the event really is an invite"
   eventType : Bytes
   stateKey : Option Bytes
@@ -384,8 +406,9 @@ def inviteStateLen (i : InviteIn) : R Nat :=
     | .ans n => .ok n
   else .ok i.strippedGiven
 
-/-- handleInviteCommonChecks from "isKnownRoom" on; `sig` is the signature already applied -/
-def inviteCommonChecks (i : InviteIn) (sig : Signed) : R InviteOut :=
+/-- handleInviteCommonChecks from "isKnownRoom" on; `target` is the sender ID the invite is for (the state key of the
+    event), `sig` the signature already applied -/
+def inviteCommonChecks (i : InviteIn) (target : Bytes) (sig : Signed) : R InviteOut :=
   match i.knownRoom with
   | .err => .error .internal
   | .ans known =>
@@ -394,28 +417,38 @@ def inviteCommonChecks (i : InviteIn) (sig : Signed) : R InviteOut :=
     | .ok n =>
       if known then
         if n == 0 then .error .internal
-        else match i.curMembership with
+        else match i.membershipOf target with
           | none => .error .internal
           | some cur => if cur == b!"join" then .error eForbidden else .ok { sig := sig, strippedLen := n }
       else .ok { sig := sig, strippedLen := n }
 
+/-- from the sender lookup on; `sk` is the event's state key -/
+def inviteTail (i : InviteIn) (sk : Bytes) : R InviteOut :=
+  match i.senderDomain with
+  | .err => .error eBadJSON
+  | .nil => .error eBadJSON              -- `err != nil || sender == nil` (round-5 repair: a nil dereference before)
+  | .dom _ =>
+    match i.verify with
+    | .callErr => .error .internal
+    | .bad => .error eForbidden
+    | .good => inviteCommonChecks i sk { signer := i.invitedUserDomain, keyID := i.keyID }
+
 def handleInvite (i : InviteIn) : R InviteOut :=
   if !i.versionKnown then .error eUnsupported
   else if i.eventRoomID != i.roomID then .error eBadJSON
-  else if i.eventType != b!"m.room.member" || i.stateKey.isNone then .error eBadJSON
-  else if i.membership != some b!"invite" then .error eBadJSON
-  else match i.senderDomain with
-    | none => .error eBadJSON
-    | some _ =>
-      match i.verify with
-      | .callErr => .error .internal
-      | .bad => .error eForbidden
-      | .good => inviteCommonChecks i { signer := i.invitedUserDomain, keyID := i.keyID }
+  else match i.stateKey with
+  | none => .error eBadJSON                                   -- `InviteEvent.StateKey() == nil`
+  | some sk =>
+    if i.eventType != b!"m.room.member" then .error eBadJSON
+    else if i.membership != some b!"invite" then .error eBadJSON
+    -- "Check that the invite is for the user we have been asked about" (round-5 repair: the state key was never looked at)
+    else if sk != i.invitedSenderID && sk != i.invitedUserID then .error eBadJSON
+    else inviteTail i sk
 
 /-! ## HandleInviteV3 (pseudo-ID rooms: the invite arrives as a proto event and is built and signed here) -/
 
 structure InviteV3In where
-  common : InviteIn          -- the fields read by handleInviteCommonChecks (knownRoom, strippedGiven, stateQuery, curMembership)
+  common : InviteIn          -- the fields read by handleInviteCommonChecks (knownRoom, strippedGiven, stateQuery, membershipOf)
   protoRoomID : Bytes
   /-- input.InviteProtoEvent.Type -/
   protoType : Bytes
@@ -439,7 +472,9 @@ def handleInviteV3 (i : InviteV3In) : R InviteOut :=
     | none => .error .internal
     | some sid =>
       if !i.buildOK then .error .internal
-      else inviteCommonChecks i.common { signer := sid, keyID := b!"ed25519:1" }
+      -- the membership asked for is that of `sid`, the state key of the event just built — not of
+      -- `i.common.invitedSenderID` (input.InvitedSenderID), which the caller may not know yet (round-5 repair)
+      else inviteCommonChecks i.common sid { signer := sid, keyID := b!"ed25519:1" }
 
 /-! ## PerformJoin (acceptance path) -/
 
@@ -456,11 +491,26 @@ def checkCreate (knownVersion : Bytes → Bool) (c : CreateFound) : Bool :=
   | .undecodable => false
   | .version v => knownVersion (if v.isEmpty then b!"1" else v)
 
-/-- `isWellFormedJoinMemberEvent` -/
-def wellFormedJoin (membership : Option Bytes) (eventRoomID roomID : Bytes) (stateKey : Option Bytes) (senderID : Bytes) : Bool :=
-  match membership with
-  | none => false
-  | some m => m == b!"join" && eventRoomID == roomID && stateKey == some senderID
+/-- what PerformJoin looks at of the "event" member of the send_join response (when it is there and parses) -/
+structure RemoteJoin where
+  ev : Event
+  type : Bytes
+  sender : Bytes
+  /-- `Membership()`: `none` = error -/
+  membership : Option Bytes
+  roomID : Bytes
+  stateKey : Option Bytes
+  /-- VerifyEventSignatures(remote copy, input.KeyRing) == nil: every server that has to sign a join — the joining
+      user's own server first of all — validly signed it (C06) -/
+  sigOK : Bool
+
+/-- `isWellFormedJoinMemberEvent`.  The type and sender conjuncts are the round-5 repair: `Membership()` reads the content
+    only, so that an `x.custom` event with state_key == the joiner and content.membership == "join" passed. -/
+def wellFormedJoin (r : RemoteJoin) (roomID senderID : Bytes) : Bool :=
+  r.type == b!"m.room.member" && r.sender == senderID &&
+  (match r.membership with
+   | none => false
+   | some m => m == b!"join" && r.roomID == roomID && r.stateKey == some senderID)
 
 inductive PJErr where
   | makeJoinFailed          -- transient, unreachable
@@ -479,8 +529,13 @@ structure PerformJoinIn (P : Type) where
   sendJoinOK : Bool
   /-- the event we built -/
   built : Event
-  /-- the "event" of the send_join response, when present, parsed and well-formed -/
-  remoteEvent : Option Event
+  /-- input.RoomID, and the sender ID the join was built for -/
+  roomID : Bytes
+  senderID : Bytes
+  /-- the room version is org.matrix.msc4014 (events are signed with room keys: `isSignedJoinEvent` lets them through) -/
+  pseudoIDs : Bool
+  /-- the "event" of the send_join response, when present and parsed -/
+  remote : Option RemoteJoin
   create : CreateFound
   knownVersion : Bytes → Bool
   O : FedCheck.Oracles P
@@ -494,10 +549,18 @@ structure PerformJoinOut where
   auth : List Event
   state : List Event
 
-/-- "If the remote server returned an event in the "event" key of the send_join response then we should use that instead" -/
+/-- `isSignedJoinEvent` (round-5 repair; before it NOTHING verified the signatures of the event PerformJoin returns) -/
+def signedJoin (pseudoIDs : Bool) (r : RemoteJoin) : Bool := pseudoIDs || r.sigOK
+
+/-- the remote's copy replaces the event we built -/
+def adoptsRemote {P} (i : PerformJoinIn P) (r : RemoteJoin) : Bool :=
+  wellFormedJoin r i.roomID i.senderID && signedJoin i.pseudoIDs r
+
+/-- "If the remote server returned an event in the "event" key of the send_join response then we should use that instead"
+    — if it is still a join of ours -/
 def joinEventUsed {P} (i : PerformJoinIn P) : Event :=
-  match i.remoteEvent with
-  | some r => r
+  match i.remote with
+  | some r => if adoptsRemote i r then r.ev else i.built
   | none => i.built
 
 def performJoin {P} (i : PerformJoinIn P) : Except PJErr (Option PerformJoinOut) :=
